@@ -386,8 +386,40 @@ pub fn parse_case(raw: &str) -> (usize, Vec<Op>) {
     (cap.parse().unwrap(), ops)
 }
 
+/// Key-validity table of a case: the five pool keys plus every 32-byte string that a raw
+/// (hand-made) datagram frame of the case carries in the key position, each with the real
+/// parser's verdict (`PublicKey::try_from`).
+fn key_table(ops: &[Op]) -> Vec<(Vec<u8>, bool)> {
+    let mut t: Vec<(Vec<u8>, bool)> = (0..5usize).map(|i| (pool_bytes(i).to_vec(), i < 4)).collect();
+    let mut add = |f: &Frame| {
+        if let Frame::Raw(_) = f {
+            let w = f.wire();
+            let off = match w.first() {
+                Some(4) | Some(5) => 1,
+                Some(0x40) if matches!(w.get(1), Some(4) | Some(5)) => 2,
+                _ => return,
+            };
+            if w.len() >= off + 32 {
+                let k = w[off..off + 32].to_vec();
+                if !t.iter().any(|(x, _)| *x == k) {
+                    let ok = PublicKey::try_from(&k[..]).is_ok();
+                    t.push((k, ok));
+                }
+            }
+        }
+    };
+    for op in ops {
+        match op {
+            Op::Send(_, f) => add(f),
+            Op::Burst(fs) => fs.iter().for_each(|(_, f)| add(f)),
+            _ => {}
+        }
+    }
+    t
+}
+
 pub fn coq_input(cap: usize, ops: &[Op]) -> String {
-    let keys = coq_list(0..5usize, |i| format!("({}, {})", coq_hex(&pool_bytes(i)), coq_bool(i < 4)));
+    let keys = coq_list(key_table(ops), |(k, ok)| format!("({}, {})", coq_hex(&k), coq_bool(ok)));
     format!("(C04.mkInput {cap} {keys} {})", coq_list(ops.iter(), |o| o.coq()))
 }
 
